@@ -48,7 +48,7 @@ class Spec(DiffSpec):
         "equal. non-trivial = >= 5 steps compared; distinct = distinct (scenario-shape, op-kind trace) pairs"
     )
     assumptions = ["only items and options the scenario states are compared with the built objects", "list order is meaningful (agents, components), mapping key order is not"]
-    required_probes = ["c20_inventory_compared"]
+    required_probes = ["c20_inventory_compared", "c20_defaults_block_compared", "c20_schedule_episode_compared"]
 
     def variants(self) -> List[Dict]:
         base = {"entropy_salt": "", "clock_kind": "plain", "id_width": "fixed5"}
@@ -59,6 +59,8 @@ class Spec(DiffSpec):
         ]
 
     def variant_args(self, case: Dict, ref_result: Dict, variant: Dict) -> Optional[Dict]:
+        if case.get("schedule_dir"):
+            return None  # directories are read from disk by the code itself: only the inventory oracle applies
         a = super().variant_args(case, ref_result, variant)
         from dst.core import intify_keys
 
@@ -71,9 +73,14 @@ class Spec(DiffSpec):
         for name, mel in shipped:
             s = base_seed * 1000003 + 920000 + len(name)
             yield {"seed": s, "shipped": name, "max_episode_length": mel, "n_ops": mel + 4, "monitors": ["c20"], "io": dict(IO_OFF), "first_reset_seed": s % 1000, "op_mix": {"step": 0.93, "reset": 0.03, "fault": 0.04}, "record_state": True}
+        # episode-scheduled directories, reset often enough to come back to file combinations used before and to run
+        # past the end of the schedule
+        for k, d in enumerate(["mini_scenario_with_simulation_variation", "scenario_with_placeholders", "uc7_multiple_attack_variants"] * (1 if tier == "quick" else 6)):
+            s = base_seed * 1000003 + 921000 + k
+            yield {"seed": s, "schedule_dir": d, "n_ops": 26 if "uc7" in d else 60, "monitors": ["c20"], "op_mix": {"step": 0.55, "reset": 0.42, "fault": 0.03}, "record_state": True}
         for i in range(n):
             s = base_seed * 1000003 + 200000000 + i
-            prof = {"n_green": (0, 2), "n_red": (0, 2), "tight_links": 0.1, "avoid": ["listen_on_ports"], "initial_power_off": 0.15, "extra_nic": 0.3}
+            prof = {"n_green": (0, 2), "n_red": (0, 2), "tight_links": 0.1, "avoid": ["listen_on_ports"], "initial_power_off": 0.15, "extra_nic": 0.3, "power_defaults": True, "use_defaults_block": 0.7}
             yield {"seed": s, "profile": prof, "n_ops": 22, "monitors": ["c20"], "first_reset_seed": s % 1000, "op_mix": {"step": 0.85, "reset": 0.06, "fault": 0.09}, "record_state": True}
 
 
